@@ -126,7 +126,7 @@ func RunOnce(t *testing.T, env *Env, p *Prop, seed, run uint64, vals []uint32, r
 			s.TraceOn = trace
 			ctx = &Ctx{S: s, T: tp, Seed: seed, Run: run, Tier: tier, Info: map[string]interface{}{}, Features: map[string]int64{}, TB: t}
 			ctx.Net = simnet.New(s)
-			ctx.Rand = simrand.New(seed, run, s.Current)
+			ctx.Rand = simrand.New(seed, run, s.EntropyNode)
 			old := rand.Reader
 			rand.Reader = ctx.Rand
 			if env != nil && env.SetEntropy != nil {
@@ -370,6 +370,7 @@ type Report struct {
 	Known       []map[string]interface{} `json:"known"`
 	HarnessErrs []string                 `json:"harness_errors"`
 	Leaks       int64                    `json:"leaks"`
+	RunLog      []string                 `json:"runlog,omitempty"`
 	LeakSample  string                   `json:"leak_sample,omitempty"`
 }
 
@@ -443,6 +444,9 @@ func Main(t *testing.T, env *Env, props map[string]*Prop) {
 			h = h[:16]
 		}
 		hashes[h] = true
+		if os.Getenv("VERIF_RUNLOG") != "" {
+			rep.RunLog = append(rep.RunLog, fmt.Sprintf("%d %s %d", run, h, r.Steps))
+		}
 		if r.Reached && r.Nontrivial {
 			rep.Nontrivial++
 			nth[h] = true
@@ -462,7 +466,7 @@ func Main(t *testing.T, env *Env, props map[string]*Prop) {
 		}
 		if wantTrace {
 			tr := r.Trace
-			if len(tr) > 60 {
+			if len(tr) > 60 && os.Getenv("VERIF_FULLTRACE") == "" {
 				tr = append(append([]string(nil), tr[:40]...), "...", tr[len(tr)-1])
 			}
 			rep.Samples = append(rep.Samples, map[string]interface{}{"seed": seed, "run": run, "config": r.Info, "strategy": r.Strategy,
